@@ -199,10 +199,10 @@ def validate(events, name, module="TraceFieldOps.tla", cfg="TraceFieldOps.cfg", 
 
 
 # ------------------------------------------------------------------------------------------------
-def record(binary, seed, n, name, only=None):
+def record(binary, seed, n, name, tier, only=None):
     wd = vf.workdir("fields")
     path = os.path.join(wd, "%s-%d.ndjson" % (name, os.getpid()))
-    args = ["record", str(seed), str(n), path] + (only or [])
+    args = ["record", str(seed), str(n), path, tier] + (only or [])
     rc, out, err = vf.run_harness(binary, args, timeout=3000)
     if rc != 0:
         raise vf.ToolError("recorder failed rc=%d: %s" % (rc, err[-2000:]))
@@ -212,7 +212,7 @@ def record(binary, seed, n, name, only=None):
     return events, summary
 
 
-def judge(ck, events, rejected, seed):
+def judge(ck, events, rejected, seed, tier):
     """Turns rejected events into violations (or tool errors for rejected certificates / witnesses)."""
     by_sig = collections.OrderedDict()
     for i in rejected:
@@ -229,7 +229,7 @@ def judge(ck, events, rejected, seed):
         e = events[idx[0]]
         combo = COMBOS.index((e["f"], e["d"])) if "sc" in e else None
         ck.violation(sig, "%d event(s); first: %s" % (len(idx), describe(e)),
-                     {"engine": "record", "seed": seed, "combo": combo, "sc": e.get("sc"), "k": e.get("k"),
+                     {"engine": "record", "seed": seed, "tier": tier, "combo": combo, "sc": e.get("sc"), "k": e.get("k"),
                       "signature": sig, "event": {k: v for k, v in e.items() if k not in ("chain",)}})
     return by_sig
 
@@ -277,9 +277,9 @@ def run(ck, tier):
     rc, out, err = vf.run_harness(binary, ["selftest"], timeout=120)
     if rc != 0:
         raise vf.ToolError("big-integer helper self-test failed: " + err[-500:])
-    n = 1500 if tier == "thorough" else 100
+    n = 1500 if tier == "thorough" else 55
     t0 = time.time()
-    events, summary = record(binary, ck.seed, n, "c10")
+    events, summary = record(binary, ck.seed, n, "c10", tier)
     vf.log("[c10] recorded %d events (%d stuck, %d skipped) in %.1fs" % (len(events), summary["stuck"], summary["skipped"], time.time() - t0))
     nscen = coverage(ck, events, summary)
     t0 = time.time()
@@ -293,7 +293,7 @@ def run(ck, tier):
     for e in events:
         if e["op"] in ("mul", "inv", "exp") and e["d"] == 3 and len(ck.samples) < 3:
             ck.sample({k: v for k, v in e.items() if k != "chain"})
-    judge(ck, events, rejected, ck.seed)
+    judge(ck, events, rejected, ck.seed, tier)
     ck.bounds = {"scenarios_per_combination": n, "combinations": ["%s degree %d" % c for c in COMBOS],
                  "operand_space": "sampled: boundary-biased + seeded random; not exhaustive"}
     ck.exhaustive = False
@@ -305,10 +305,10 @@ def run(ck, tier):
 def replay(ck, path):
     binary = vf.build_harness("fields")
     obj = json.load(open(path))["replay"]
-    events, summary = record(binary, obj["seed"], 0, "c10-replay", only=["%d:%d" % (obj["combo"], obj["sc"])])
+    events, summary = record(binary, obj["seed"], 0, "c10-replay", obj.get("tier", "quick"), only=["%d:%d" % (obj["combo"], obj["sc"])])
     rejected, states, trans = validate(events, "c10-replay", nproc=1)
     ck.states += states
     ck.transitions += trans
     ck.traces += 1
     ck.evaluations += len(events)
-    judge(ck, events, rejected, obj["seed"])
+    judge(ck, events, rejected, obj["seed"], obj.get("tier", "quick"))
